@@ -1,5 +1,7 @@
 (* Proofs about the scale heap machine Scale/ScaleState.v (property C12,
-   object level): the cache invariant, ownership of domain cells, and
+   object level).  No operation writes into an existing list cell, so cells
+   are immutable after allocation; from that: the cache invariant for ALL
+   histories (shared cells included, no disjointness condition) and
    non-interference between distinct scales (in particular copy/original). *)
 From Coq Require Import ZArith QArith Lqa List Bool Lia.
 From Labella Require Import Scale.Linear Scale.LinearProofs Scale.Ticks Scale.Nice Scale.ScaleState.
@@ -23,24 +25,25 @@ Qed.
 Lemma length_upd : forall A (l : list A) i x, length (upd l i x) = length l.
 Proof. induction l as [|h t IH]; intros [|i] x; simpl; auto. Qed.
 
-Lemma nth_error_snoc_old : forall A (l : list A) x i, (i < length l)%nat ->
-  nth_error (l ++ [x]) i = nth_error l i.
-Proof. intros. apply nth_error_app1. assumption. Qed.
-
-Lemma nth_error_snoc_new : forall A (l : list A) x, nth_error (l ++ [x]) (length l) = Some x.
-Proof. intros. rewrite nth_error_app2 by lia. rewrite Nat.sub_diag. reflexivity. Qed.
-
 Lemma nth_error_Some_lt : forall A (l : list A) i x, nth_error l i = Some x -> (i < length l)%nat.
 Proof. intros A l i x H. apply nth_error_Some. congruence. Qed.
 
-Lemma map_upd : forall A B (f : A -> B) l i x, map f (upd l i x) = upd (map f l) i (f x).
-Proof. induction l as [|h t IH]; intros [|i] x; simpl; auto. rewrite IH. reflexivity. Qed.
-
-Lemma upd_same_val : forall A (l : list A) i x, nth_error l i = Some x -> upd l i x = l.
+Lemma nth_error_ext : forall A (l l' : list A) i x,
+  nth_error l i = Some x -> nth_error (l ++ l') i = Some x.
 Proof.
-  induction l as [|h t IH]; intros [|i] x H; simpl in *; try reflexivity; try discriminate.
-  - congruence.
-  - rewrite IH by assumption. reflexivity.
+  intros A l l' i x H. rewrite nth_error_app1; [assumption|].
+  apply nth_error_Some_lt with x. assumption.
+Qed.
+
+Lemma nth_error_snoc_new : forall A (l l' : list A) x,
+  nth_error (l ++ x :: l') (length l) = Some x.
+Proof. intros. rewrite nth_error_app2 by lia. rewrite Nat.sub_diag. reflexivity. Qed.
+
+Lemma nth_error_snoc_new2 : forall A (l : list A) x y,
+  nth_error (l ++ [x; y]) (S (length l)) = Some y.
+Proof.
+  intros. rewrite nth_error_app2 by lia.
+  replace (S (length l) - length l)%nat with 1%nat by lia. reflexivity.
 Qed.
 
 Lemma In_upd : forall A (l : list A) i x y, In y (upd l i x) -> y = x \/ In y l.
@@ -50,156 +53,127 @@ Proof.
   - destruct H as [H|H]; auto. destruct (IH _ _ _ H); auto.
 Qed.
 
-Lemma NoDup_upd_fresh : forall A (l : list A) i x, NoDup l -> ~ In x l -> NoDup (upd l i x).
-Proof.
-  induction l as [|h t IH]; intros i x ND NI; [constructor|].
-  inversion ND as [|? ? Hh Ht]; subst. destruct i; simpl.
-  - constructor; [|assumption]. intro H. apply NI. right. assumption.
-  - constructor.
-    + intro H. apply In_upd in H. destruct H as [H|H]; [|contradiction]. apply NI. left. assumption.
-    + apply IH; [assumption|]. intro H. apply NI. right. assumption.
-Qed.
-
-Lemma NoDup_snoc : forall A (l : list A) x, NoDup l -> ~ In x l -> NoDup (l ++ [x]).
-Proof.
-  intros A l x ND NI. apply NoDup_rev in ND.
-  rewrite <- (rev_involutive (l ++ [x])). apply NoDup_rev. rewrite rev_app_distr. simpl.
-  constructor; [|assumption]. intro H. apply NI. apply in_rev. assumption.
-Qed.
-
-Lemma NoDup_nth_error_inj : forall A (l : list A) i j x,
-  NoDup l -> nth_error l i = Some x -> nth_error l j = Some x -> i = j.
-Proof.
-  intros A l i j x ND Hi Hj.
-  apply (proj1 (NoDup_nth_error l) ND i j); [apply nth_error_Some_lt with x; assumption|congruence].
-Qed.
-
 Lemma Forall_upd : forall A (P : A -> Prop) l i x, Forall P l -> P x -> Forall P (upd l i x).
 Proof.
   induction l as [|h t IH]; intros [|i] x F Px; simpl; auto; inversion F; subst; constructor; auto.
 Qed.
 
-Lemma Forall_nth_error : forall A (P : A -> Prop) l,
-  (forall j x, nth_error l j = Some x -> P x) -> Forall P l.
-Proof.
-  intros A P l H. apply Forall_forall. intros x I. apply In_nth_error in I.
-  destruct I as [j Hj]. eapply H. eassumption.
-Qed.
-
-(* ---------- the invariant ------------------------------------------------ *)
-Definition reachable (st : state) : Prop := exists ops, st = run ops init.
-
-Lemma wf_snoc : forall dh rh x y s, wf_scale dh rh s -> wf_scale (dh ++ x) (rh ++ y) s.
-Proof.
-  intros dh rh x y s (d & r & Hd & Hr & Hc). exists d, r. repeat split; [| |assumption].
-  - rewrite nth_error_app1; [assumption|apply nth_error_Some_lt with d; assumption].
-  - rewrite nth_error_app1; [assumption|apply nth_error_Some_lt with r; assumption].
-Qed.
-
-Lemma wf_dom_lt : forall dh rh s, wf_scale dh rh s -> (dom s < length dh)%nat.
-Proof. intros dh rh s (d & r & Hd & _). apply nth_error_Some_lt with d. assumption. Qed.
-
-Lemma wf_rescale : forall dh rh s d r,
-  nth_error dh (dom s) = Some d -> nth_error rh (rng s) = Some r ->
-  wf_scale dh rh (rescale dh rh s).
-Proof.
-  intros dh rh s d r Hd Hr. unfold rescale. rewrite Hd, Hr. exists d, r. simpl. auto.
-Qed.
-
-Lemma rescale_dom : forall dh rh s, dom (rescale dh rh s) = dom s.
-Proof. intros. unfold rescale. destruct (nth_error dh (dom s)), (nth_error rh (rng s)); reflexivity. Qed.
-
-Lemma fresh_dom : forall dh rh l, Forall (wf_scale dh rh) l -> ~ In (length dh) (map dom l).
-Proof.
-  intros dh rh l F H. apply in_map_iff in H. destruct H as (s & E & I).
-  rewrite Forall_forall in F. pose proof (wf_dom_lt _ _ _ (F s I)). lia.
-Qed.
-
-Lemma Forall_wf_snoc : forall dh rh x y l,
-  Forall (wf_scale dh rh) l -> Forall (wf_scale (dh ++ x) (rh ++ y)) l.
-Proof. intros. eapply Forall_impl; [|eassumption]. intros. apply wf_snoc. assumption. Qed.
-
 Lemma app_nil_r' : forall A (l : list A), l = l ++ [].
 Proof. intros. rewrite app_nil_r. reflexivity. Qed.
 
+(* ---------- cells are immutable ------------------------------------------ *)
+Lemma set_range_heap : forall st i c, heap (set_range st i c) = heap st.
+Proof.
+  intros st i c. unfold set_range.
+  destruct (nth_error (scales st) i), (nth_error (heap st) c); reflexivity.
+Qed.
+
+(* every operation only appends to the heap *)
+Lemma step_heap_ext : forall st o, exists l, heap (step st o) = heap st ++ l.
+Proof.
+  intros st o. destruct o as [|d r|c|i d|i c|i t|i t|i b|i m|i]; simpl;
+    try rewrite set_range_heap;
+    repeat match goal with |- context [match ?x with _ => _ end] => destruct x end;
+    simpl; try rewrite set_range_heap;
+    try (eexists; reflexivity); try (exists []; apply app_nil_r').
+Qed.
+
+Theorem ss_cells_immutable_step : forall st o c v,
+  nth_error (heap st) c = Some v -> nth_error (heap (step st o)) c = Some v.
+Proof.
+  intros st o c v H. destruct (step_heap_ext st o) as [l E]. rewrite E.
+  apply nth_error_ext. assumption.
+Qed.
+
+(* once a list cell exists its contents never change, whatever is done *)
+Theorem ss_cells_immutable : forall ops st c v,
+  nth_error (heap st) c = Some v -> nth_error (heap (run ops st)) c = Some v.
+Proof.
+  induction ops as [|o ops IH]; intros st c v H; [assumption|].
+  simpl. apply IH. apply ss_cells_immutable_step. assumption.
+Qed.
+
+(* ---------- the invariant ------------------------------------------------ *)
+Lemma wf_ext : forall h l s, wf_scale h s -> wf_scale (h ++ l) s.
+Proof.
+  intros h l s (d & r & Hd & Hr & Hc). exists d, r.
+  repeat split; [apply nth_error_ext|apply nth_error_ext|]; assumption.
+Qed.
+
+Lemma Forall_wf_ext : forall h l ss, Forall (wf_scale h) ss -> Forall (wf_scale (h ++ l)) ss.
+Proof. intros. eapply Forall_impl; [|eassumption]. intros. apply wf_ext. assumption. Qed.
+
+Lemma wf_rescale : forall h s d r,
+  nth_error h (dom s) = Some d -> nth_error h (rng s) = Some r -> wf_scale h (rescale h s).
+Proof.
+  intros h s d r Hd Hr. unfold rescale. rewrite Hd, Hr. exists d, r. simpl. auto.
+Qed.
+
+Lemma rescale_eq : forall h s d r,
+  nth_error h (dom s) = Some d -> nth_error h (rng s) = Some r ->
+  rescale h s = mkScale (dom s) (rng s) (clamp s) (mkCache (fst d) (snd d) (fst r) (snd r) (clamp s)).
+Proof. intros h s d r Hd Hr. unfold rescale. rewrite Hd, Hr. reflexivity. Qed.
+
 Lemma inv_init : ss_inv init.
-Proof. split; simpl; constructor. Qed.
+Proof. constructor. Qed.
+
+Lemma wf_of_inv : forall st i s, ss_inv st -> nth_error (scales st) i = Some s ->
+  wf_scale (heap st) s.
+Proof.
+  intros st i s F H. unfold ss_inv in F. rewrite Forall_forall in F. apply F.
+  eapply nth_error_In. eassumption.
+Qed.
+
+Lemma inv_set_range : forall st i c, ss_inv st -> ss_inv (set_range st i c).
+Proof.
+  intros st i c F. unfold set_range.
+  destruct (nth_error (scales st) i) as [s|] eqn:Es; [|assumption].
+  destruct (nth_error (heap st) c) as [r|] eqn:Ec; [|assumption].
+  destruct (wf_of_inv st i s F Es) as (d0 & r0 & Hd0 & Hr0 & Hc0).
+  unfold ss_inv. simpl. apply Forall_upd; [assumption|].
+  eapply wf_rescale; simpl; eassumption.
+Qed.
 
 Lemma inv_step : forall st o, ss_inv st -> ss_inv (step st o).
 Proof.
-  intros st o [F ND]. destruct o as [|r|i d|i c|i b|i m|i]; simpl.
+  intros st o F. destruct o as [|d r|c|i d|i c|i t|i t|i b|i m|i]; simpl.
   - (* ONew *)
-    split; simpl.
-    + apply Forall_app. split; [apply Forall_wf_snoc; assumption|]. constructor; [|constructor].
-      eapply wf_rescale; simpl; apply nth_error_snoc_new.
-    + rewrite map_app. simpl. rewrite rescale_dom. simpl.
-      apply NoDup_snoc; [assumption|]. eapply fresh_dom; eassumption.
-  - (* OAllocR *)
-    split; simpl; [|assumption].
-    rewrite (app_nil_r' _ (dheap st)). apply Forall_wf_snoc. assumption.
+    unfold ss_inv. simpl. apply Forall_app. split; [apply Forall_wf_ext; assumption|].
+    constructor; [|constructor].
+    eapply wf_rescale; simpl; [apply nth_error_snoc_new|apply nth_error_snoc_new2].
+  - (* ONewWith *)
+    destruct (nth_error (heap st) d) as [cd|] eqn:Ed; [|assumption].
+    destruct (nth_error (heap st) r) as [cr|] eqn:Er; [|assumption].
+    unfold ss_inv. simpl. apply Forall_app. split; [assumption|].
+    constructor; [|constructor]. eapply wf_rescale; simpl; eassumption.
+  - (* OAlloc *)
+    unfold ss_inv. simpl. apply Forall_wf_ext. assumption.
   - (* ODomain *)
-    destruct (nth_error (scales st) i) as [s|] eqn:Es; [|split; assumption].
-    assert (W : wf_scale (dheap st) (rheap st) s)
-      by (rewrite Forall_forall in F; apply F; eapply nth_error_In; eassumption).
-    destruct W as (d0 & r0 & Hd0 & Hr0 & Hc0).
-    split; simpl.
-    + apply Forall_upd.
-      * rewrite (app_nil_r' _ (rheap st)). apply Forall_wf_snoc. assumption.
-      * eapply wf_rescale; simpl; [apply nth_error_snoc_new|eassumption].
-    + rewrite map_upd, rescale_dom. simpl. apply NoDup_upd_fresh; [assumption|].
-      eapply fresh_dom; eassumption.
-  - (* ORange *)
-    destruct (nth_error (scales st) i) as [s|] eqn:Es; [|split; assumption].
-    destruct (nth_error (rheap st) c) as [r|] eqn:Ec; [|split; assumption].
-    assert (W : wf_scale (dheap st) (rheap st) s)
-      by (rewrite Forall_forall in F; apply F; eapply nth_error_In; eassumption).
-    destruct W as (d0 & r0 & Hd0 & Hr0 & Hc0).
-    split; simpl.
-    + apply Forall_upd; [assumption|]. eapply wf_rescale; simpl; eassumption.
-    + rewrite map_upd, rescale_dom. simpl. rewrite upd_same_val; [assumption|].
-      rewrite nth_error_map, Es. reflexivity.
+    destruct (nth_error (scales st) i) as [s|] eqn:Es; [|assumption].
+    destruct (wf_of_inv st i s F Es) as (d0 & r0 & Hd0 & Hr0 & Hc0).
+    unfold ss_inv. simpl. apply Forall_upd; [apply Forall_wf_ext; assumption|].
+    eapply wf_rescale; simpl; [apply nth_error_snoc_new|apply nth_error_ext; eassumption].
+  - apply inv_set_range. assumption.
+  - destruct (nth_error (scales st) t); [apply inv_set_range|]; assumption.
+  - destruct (nth_error (scales st) t); [apply inv_set_range|]; assumption.
   - (* OClamp *)
-    destruct (nth_error (scales st) i) as [s|] eqn:Es; [|split; assumption].
-    assert (W : wf_scale (dheap st) (rheap st) s)
-      by (rewrite Forall_forall in F; apply F; eapply nth_error_In; eassumption).
-    destruct W as (d0 & r0 & Hd0 & Hr0 & Hc0).
-    split; simpl.
-    + apply Forall_upd; [assumption|]. eapply wf_rescale; simpl; eassumption.
-    + rewrite map_upd, rescale_dom. simpl. rewrite upd_same_val; [assumption|].
-      rewrite nth_error_map, Es. reflexivity.
-  - (* ONice *)
-    destruct (nth_error (scales st) i) as [s|] eqn:Es; [|split; assumption].
-    destruct (nth_error (dheap st) (dom s)) as [d|] eqn:Ed; [|split; assumption].
-    assert (W : wf_scale (dheap st) (rheap st) s)
-      by (rewrite Forall_forall in F; apply F; eapply nth_error_In; eassumption).
-    destruct W as (d0 & r0 & Hd0 & Hr0 & Hc0).
-    assert (Hlt : (dom s < length (dheap st))%nat) by (apply nth_error_Some_lt with d; assumption).
-    split; simpl.
-    + (* every other scale points to a different domain cell, so its cache stays right *)
-      apply Forall_nth_error. intros j s' Hj.
-      destruct (Nat.eq_dec i j) as [E|NE].
-      * subst j. rewrite nth_error_upd_same in Hj by (apply nth_error_Some_lt with s; assumption).
-        injection Hj as Hj. subst s'.
-        eapply wf_rescale; [apply nth_error_upd_same; assumption|eassumption].
-      * rewrite nth_error_upd_other in Hj by assumption.
-        assert (Hdd : dom s' <> dom s).
-        { intro E. apply NE. apply (NoDup_nth_error_inj _ (map dom (scales st)) i j (dom s) ND).
-          - rewrite nth_error_map, Es. reflexivity.
-          - rewrite nth_error_map, Hj. simpl. congruence. }
-        rewrite Forall_forall in F. destruct (F s' (nth_error_In _ _ Hj)) as (d' & r' & Hd' & Hr' & Hc').
-        exists d', r'. repeat split; try assumption.
-        rewrite nth_error_upd_other by congruence. assumption.
-    + rewrite map_upd, rescale_dom. rewrite upd_same_val; [assumption|].
-      rewrite nth_error_map, Es. reflexivity.
+    destruct (nth_error (scales st) i) as [s|] eqn:Es; [|assumption].
+    destruct (wf_of_inv st i s F Es) as (d0 & r0 & Hd0 & Hr0 & Hc0).
+    unfold ss_inv. simpl. apply Forall_upd; [assumption|].
+    eapply wf_rescale; simpl; eassumption.
+  - (* ONice: a fresh cell; every other scale keeps pointing at unchanged cells *)
+    destruct (nth_error (scales st) i) as [s|] eqn:Es; [|assumption].
+    destruct (nth_error (heap st) (dom s)) as [d|] eqn:Ed; [|assumption].
+    destruct (wf_of_inv st i s F Es) as (d0 & r0 & Hd0 & Hr0 & Hc0).
+    unfold ss_inv. simpl. apply Forall_upd; [apply Forall_wf_ext; assumption|].
+    eapply wf_rescale; simpl; [apply nth_error_snoc_new|apply nth_error_ext; eassumption].
   - (* OCopy *)
-    destruct (nth_error (scales st) i) as [s|] eqn:Es; [|split; assumption].
-    destruct (nth_error (dheap st) (dom s)) as [d|] eqn:Ed; [|split; assumption].
-    destruct (nth_error (rheap st) (rng s)) as [r|] eqn:Er; [|split; assumption].
-    split; simpl.
-    + apply Forall_app. split; [apply Forall_wf_snoc; assumption|]. constructor; [|constructor].
-      eapply wf_rescale; simpl; apply nth_error_snoc_new.
-    + rewrite map_app. simpl. rewrite rescale_dom. simpl.
-      apply NoDup_snoc; [assumption|]. eapply fresh_dom; eassumption.
+    destruct (nth_error (scales st) i) as [s|] eqn:Es; [|assumption].
+    destruct (nth_error (heap st) (dom s)) as [d|] eqn:Ed; [|assumption].
+    destruct (nth_error (heap st) (rng s)) as [r|] eqn:Er; [|assumption].
+    unfold ss_inv. simpl. apply Forall_app. split; [apply Forall_wf_ext; assumption|].
+    constructor; [|constructor].
+    eapply wf_rescale; simpl; [apply nth_error_snoc_new|apply nth_error_snoc_new2].
 Qed.
 
 Lemma inv_run : forall ops st, ss_inv st -> ss_inv (run ops st).
@@ -209,8 +183,8 @@ Proof.
 Qed.
 
 (* in every reachable state: every scale's closures hold exactly the end
-   points of the domain and range it reports (and the current clamp flag), and
-   no two scales share a domain list *)
+   points of the domain and range it reports (and the current clamp flag) -
+   however the list cells are shared between scales *)
 Theorem ss_invariant : forall ops, ss_inv (run ops init).
 Proof. intro ops. apply inv_run. apply inv_init. Qed.
 
@@ -220,8 +194,7 @@ Lemma inv_observe : forall st i s, ss_inv st -> nth_error (scales st) i = Some s
     observe st i QClamp = AFlag (clamp s) /\
     cached s = mkCache (fst d) (snd d) (fst r) (snd r) (clamp s).
 Proof.
-  intros st i s [F _] Hs. rewrite Forall_forall in F.
-  destruct (F s (nth_error_In _ _ Hs)) as (d & r & Hd & Hr & Hc).
+  intros st i s F Hs. destruct (wf_of_inv st i s F Hs) as (d & r & Hd & Hr & Hc).
   exists d, r. unfold observe. rewrite Hs, Hd, Hr. auto.
 Qed.
 
@@ -255,61 +228,80 @@ Proof.
 Qed.
 
 (* ---------- non-interference --------------------------------------------- *)
+Lemma set_range_length : forall st i c, length (scales (set_range st i c)) = length (scales st).
+Proof.
+  intros st i c. unfold set_range.
+  destruct (nth_error (scales st) i), (nth_error (heap st) c); simpl; rewrite ?length_upd; reflexivity.
+Qed.
+
 Lemma step_length : forall st o, (length (scales st) <= length (scales (step st o)))%nat.
 Proof.
-  intros st o. destruct o as [|r|i d|i c|i b|i m|i]; simpl;
+  intros st o. destruct o as [|d r|c|i d|i c|i t|i t|i b|i m|i]; simpl;
+    try rewrite set_range_length;
     repeat match goal with |- context [match ?x with _ => _ end] => destruct x end;
-    simpl; rewrite ?app_length, ?length_upd; simpl; lia.
+    simpl; rewrite ?set_range_length, ?app_length, ?length_upd; simpl; lia.
+Qed.
+
+Lemma set_range_other : forall st i c t q, i <> t ->
+  observe (set_range st i c) t q = observe st t q.
+Proof.
+  intros st i c t q H. unfold set_range.
+  destruct (nth_error (scales st) i) as [s|]; [|reflexivity].
+  destruct (nth_error (heap st) c) as [r|]; [|reflexivity].
+  unfold observe. simpl. rewrite nth_error_upd_other by assumption. reflexivity.
+Qed.
+
+(* observations of t only depend on t's record and on the cells it points to *)
+Lemma observe_ext : forall h l ss ss' t q s,
+  wf_scale h s -> nth_error ss t = Some s -> nth_error ss' t = Some s ->
+  observe (mkState (h ++ l) ss') t q = observe (mkState h ss) t q.
+Proof.
+  intros h l ss ss' t q s (d & r & Hd & Hr & _) H H'. unfold observe. simpl.
+  rewrite H, H'. rewrite (nth_error_ext _ h l _ _ Hd), (nth_error_ext _ h l _ _ Hr), Hd, Hr.
+  reflexivity.
 Qed.
 
 (* an operation that does not write to scale t changes no observation of t *)
 Lemma step_other : forall st o t q, ss_inv st -> (t < length (scales st))%nat ->
   touches t o = false -> observe (step st o) t q = observe st t q.
 Proof.
-  intros st o t q [F ND] Ht Ho.
+  intros st o t q F Ht Ho.
   destruct (nth_error (scales st) t) as [st_t|] eqn:Et;
     [|apply nth_error_None in Et; lia].
-  assert (Wt : wf_scale (dheap st) (rheap st) st_t)
-    by (rewrite Forall_forall in F; apply F; eapply nth_error_In; eassumption).
-  destruct Wt as (dt & rt & Hdt & Hrt & Hct).
-  assert (Ldt : (dom st_t < length (dheap st))%nat) by (apply nth_error_Some_lt with dt; assumption).
-  assert (Lrt : (rng st_t < length (rheap st))%nat) by (apply nth_error_Some_lt with rt; assumption).
+  pose proof (wf_of_inv st t st_t F Et) as Wt.
+  assert (Est : st = mkState (heap st) (scales st)) by (destruct st; reflexivity).
   unfold touches in Ho.
-  destruct o as [|r|i d|i c|i b|i m|i]; simpl in Ho |- *.
-  - unfold observe. simpl. rewrite nth_error_app1 by assumption. rewrite Et.
-    rewrite !nth_error_app1 by assumption. reflexivity.
-  - unfold observe. simpl. rewrite Et. rewrite !nth_error_app1 by assumption. reflexivity.
-  - apply Nat.eqb_neq in Ho.
-    destruct (nth_error (scales st) i) as [s|] eqn:Es; [|reflexivity].
-    unfold observe. simpl. rewrite nth_error_upd_other by assumption. rewrite Et.
-    rewrite !nth_error_app1 by assumption. reflexivity.
-  - apply Nat.eqb_neq in Ho.
-    destruct (nth_error (scales st) i) as [s|] eqn:Es; [|reflexivity].
-    destruct (nth_error (rheap st) c) as [r|] eqn:Ec; [|reflexivity].
-    unfold observe. simpl. rewrite nth_error_upd_other by assumption. rewrite Et. reflexivity.
-  - apply Nat.eqb_neq in Ho.
-    destruct (nth_error (scales st) i) as [s|] eqn:Es; [|reflexivity].
-    unfold observe. simpl. rewrite nth_error_upd_other by assumption. rewrite Et. reflexivity.
-  - apply Nat.eqb_neq in Ho.
-    destruct (nth_error (scales st) i) as [s|] eqn:Es; [|reflexivity].
-    destruct (nth_error (dheap st) (dom s)) as [d|] eqn:Ed; [|reflexivity].
-    unfold observe. simpl. rewrite nth_error_upd_other by assumption. rewrite Et.
-    (* nice() writes into the domain cell of scale i, which is not t's *)
-    assert (Hdd : dom s <> dom st_t).
-    { intro E. apply Ho. apply (NoDup_nth_error_inj _ (map dom (scales st)) i t (dom s) ND).
-      - rewrite nth_error_map, Es. reflexivity.
-      - rewrite nth_error_map, Et. simpl. congruence. }
-    rewrite nth_error_upd_other by assumption. reflexivity.
+  destruct o as [|d r|c|i d|i c|i u|i u|i b|i m|i]; simpl in Ho |- *;
+    try (apply Nat.eqb_neq in Ho).
+  - rewrite Est at 2. apply (observe_ext _ _ _ _ _ _ st_t Wt Et).
+    rewrite nth_error_app1 by assumption. assumption.
+  - destruct (nth_error (heap st) d); [|reflexivity]. destruct (nth_error (heap st) r); [|reflexivity].
+    rewrite Est at 2. rewrite (app_nil_r' _ (heap st)) at 1.
+    apply (observe_ext _ _ _ _ _ _ st_t Wt Et).
+    rewrite nth_error_app1 by assumption. assumption.
+  - rewrite Est at 2. apply (observe_ext _ _ _ _ _ _ st_t Wt Et). assumption.
   - destruct (nth_error (scales st) i) as [s|] eqn:Es; [|reflexivity].
-    destruct (nth_error (dheap st) (dom s)) as [d|] eqn:Ed; [|reflexivity].
-    destruct (nth_error (rheap st) (rng s)) as [r|] eqn:Er; [|reflexivity].
-    unfold observe. simpl. rewrite nth_error_app1 by assumption. rewrite Et.
-    rewrite !nth_error_app1 by assumption. reflexivity.
+    rewrite Est at 2. apply (observe_ext _ _ _ _ _ _ st_t Wt Et).
+    rewrite nth_error_upd_other by assumption. assumption.
+  - apply set_range_other. assumption.
+  - destruct (nth_error (scales st) u); [apply set_range_other; assumption|reflexivity].
+  - destruct (nth_error (scales st) u); [apply set_range_other; assumption|reflexivity].
+  - destruct (nth_error (scales st) i) as [s|] eqn:Es; [|reflexivity].
+    unfold observe. simpl. rewrite nth_error_upd_other by assumption. reflexivity.
+  - destruct (nth_error (scales st) i) as [s|] eqn:Es; [|reflexivity].
+    destruct (nth_error (heap st) (dom s)) as [d|] eqn:Ed; [|reflexivity].
+    rewrite Est at 2. apply (observe_ext _ _ _ _ _ _ st_t Wt Et).
+    rewrite nth_error_upd_other by assumption. assumption.
+  - destruct (nth_error (scales st) i) as [s|] eqn:Es; [|reflexivity].
+    destruct (nth_error (heap st) (dom s)) as [d|] eqn:Ed; [|reflexivity].
+    destruct (nth_error (heap st) (rng s)) as [r|] eqn:Er; [|reflexivity].
+    rewrite Est at 2. apply (observe_ext _ _ _ _ _ _ st_t Wt Et).
+    rewrite nth_error_app1 by assumption. assumption.
 Qed.
 
 (* by induction over operation lists: whatever is done to OTHER scales
-   (including copying t, copying the copies, nice() on them, ...) no
-   observation of t changes *)
+   (including copying t, handing t's own lists to them, nice() on them, ...)
+   no observation of t changes *)
 Lemma run_other : forall ops st t q, ss_inv st -> (t < length (scales st))%nat ->
   forallb (fun o => negb (touches t o)) ops = true ->
   observe (run ops st) t q = observe st t q.
@@ -337,12 +329,12 @@ Lemma copy_faithful_inv : forall st i q, ss_inv st -> (i < length (scales st))%n
 Proof.
   intros st i q I Hi.
   destruct (nth_error (scales st) i) as [s|] eqn:Es; [|apply nth_error_None in Es; lia].
-  destruct I as [F ND]. rewrite Forall_forall in F.
-  destruct (F s (nth_error_In _ _ Es)) as (d & r & Hd & Hr & Hc).
-  simpl. rewrite Es, Hd, Hr. simpl. split; [|rewrite app_length; simpl; lia].
-  unfold observe. simpl. rewrite nth_error_snoc_new, Es.
-  unfold rescale. simpl. rewrite !nth_error_snoc_new. simpl.
-  rewrite ?nth_error_snoc_new. rewrite Hd, Hr, Hc. reflexivity.
+  destruct (wf_of_inv st i s I Es) as (d & r & Hd & Hr & Hc).
+  simpl. rewrite Es, Hd, Hr. cbn [scales heap]. split; [|rewrite app_length; simpl; lia].
+  rewrite (rescale_eq _ _ d r); [|apply nth_error_snoc_new|apply nth_error_snoc_new2].
+  unfold observe. cbn [scales heap]. rewrite (nth_error_snoc_new _ (scales st) []), Es.
+  cbn [dom rng clamp cached].
+  rewrite nth_error_snoc_new, nth_error_snoc_new2, Hd, Hr, Hc. reflexivity.
 Qed.
 
 (* ... and from then on original and copy never influence each other:
@@ -371,28 +363,12 @@ Proof.
     apply (copy_faithful_inv st i q I Hi).
 Qed.
 
-(* nothing ever writes into a range list: sharing one between scales (which
-   only the caller can arrange) is harmless *)
-Theorem ss_range_cells_immutable : forall ops st c r,
-  nth_error (rheap st) c = Some r -> nth_error (rheap (run ops st)) c = Some r.
-Proof.
-  induction ops as [|o ops IH]; intros st c r H; [assumption|].
-  simpl. apply IH.
-  destruct o as [|r'|i d|i c'|i b|i m|i]; simpl;
-    repeat match goal with |- context [match ?x with _ => _ end] => destruct x end;
-    simpl; try assumption;
-    (rewrite nth_error_app1; [assumption|apply nth_error_Some_lt with r; assumption]).
-Qed.
-
-(* domain lists are never shared *)
-Theorem ss_domains_disjoint : forall ops i j si sj,
+(* no dangling references: every scale points to existing cells *)
+Theorem ss_no_dangling : forall ops j s,
   let st := run ops init in
-  nth_error (scales st) i = Some si -> nth_error (scales st) j = Some sj ->
-  dom si = dom sj -> i = j.
+  nth_error (scales st) j = Some s ->
+  (dom s < length (heap st))%nat /\ (rng s < length (heap st))%nat.
 Proof.
-  intros ops i j si sj st Hi Hj E.
-  destruct (ss_invariant ops) as [_ ND]. fold st in ND.
-  apply (NoDup_nth_error_inj _ (map dom (scales st)) i j (dom si) ND).
-  - rewrite nth_error_map, Hi. reflexivity.
-  - rewrite nth_error_map, Hj. simpl. congruence.
+  intros ops j s st H. destruct (wf_of_inv st j s (ss_invariant ops) H) as (d & r & Hd & Hr & _).
+  split; eapply nth_error_Some_lt; eassumption.
 Qed.
